@@ -116,7 +116,7 @@ def main(tier="quick", seed=0, procs=None, only=None):
         import random
         rng = random.Random(seed)
         for _ in range(40):
-            jobs.append(("fit", dict(epochs=rng.randint(4, 5), n_train=rng.randint(1, 5), bs=rng.randint(2, 4), val=rng.choice((None, 1, 3)),
+            jobs.append(("fit", dict(FIT_DEFAULT, epochs=rng.randint(4, 5), n_train=rng.randint(1, 5), bs=rng.randint(2, 4), val=rng.choice((None, 1, 3)),
                                      ev=rng.choice((None,) + tl.MODES), cb_train=rng.random() < .5, cb_val=rng.random() < .5, rem=0, val_raises=False)))
     if only:
         jobs = [j for j in jobs if only in repr(j)]
